@@ -51,21 +51,6 @@ def conjuncts(t):
     return [t]
 
 
-def literals(path):
-    """path conditions split into literals: `a and b` taken True is a, b taken True; `a or b` taken False is a, b taken False; negations folded"""
-    out = []
-    for cnd, pol in path:
-        while cnd[0] == "unop" and cnd[1] in ("not", "truth"):
-            if cnd[1] == "not":
-                pol = not pol
-            cnd = cnd[2]
-        if cnd[0] == "bool" and ((cnd[1] == "and" and pol) or (cnd[1] == "or" and not pol)):
-            out += literals([(x, pol) for x in cnd[2]])
-        else:
-            out.append((cnd, pol))
-    return out
-
-
 QUANT_ALL = {"numpy.all", "all", "numpy.alltrue"}
 QUANT_ANY = {"numpy.any", "any", "numpy.sometrue"}
 
